@@ -196,4 +196,15 @@ PROPS = {
             "thorough": [dict(test="TestC20Model", checks=200000, shards=16, timeout=3000)],
         },
     ),
+    "C15": dict(
+        kind="ext", pkg="./c15", level="exploration", engine="fakebn",
+        technique="model-based property testing on virtual time (rapid + synctest): production scheduler with production clock, delay function and duties cache over a scripted beacon node; history invariant over all subscriber calls against a reference model of the assignments",
+        level_text="Generated assignments, validator life cycles, start slots, per-endpoint failure scripts and slow beacon calls (missed ticks); every trigger is checked (never twice, never early, only the beacon node's assignment to an active cluster validator) "
+                   "and every ticked slot that began after its epoch was resolved must have triggered exactly the model's definition sets.",
+        level_note="An epoch counts as resolved when its last resolution call first succeeds (observed on the fake beacon node); feature-gated paths (reorg handling, fetch-on-block) keep their default (off); delays are allowed by the property, only duplication / alteration / loss after resolution are violations.",
+        runs={
+            "quick": [dict(test="TestC15Scheduler", checks=800, shards=4, shrinktime="15s")],
+            "thorough": [dict(test="TestC15Scheduler", checks=40000, shards=16, timeout=3000)],
+        },
+    ),
 }
